@@ -127,14 +127,14 @@ end Ev
 instance : NatCast Float := ⟨Float.ofNat⟩
 
 /-- `int(d)` for a non-negative number below 2^63 -/
-class Trunc (α : Type) where
+class TruncNat (α : Type) where
   toNat : α → Nat
 
-instance : Trunc Float := ⟨fun x => x.toUInt64.toNat⟩
+instance : TruncNat Float := ⟨fun x => x.toUInt64.toNat⟩
 
 section Numeric
 variable {α : Type} [Add α] [Sub α] [Mul α] [Div α] [Neg α] [LT α] [LE α]
-  [DecidableLT α] [DecidableLE α] [OfNat α 0] [OfNat α 1] [OfNat α 2] [NatCast α] [Trunc α]
+  [DecidableLT α] [DecidableLE α] [OfNat α 0] [OfNat α 1] [OfNat α 2] [NatCast α] [TruncNat α]
 
 namespace Ev
 
@@ -156,7 +156,7 @@ def yLoop (n : Nat) (x1 : Bool) : (fuel : Nat) → (d r : α) → St → List α
       if x1 then (2^n - 1, 0)
       else
         let d := d * nexp n
-        let iis := Trunc.toNat d
+        let iis := TruncNat.toNat d
         (iis, d - (iis : α))
     let (s', iu) := step n s iis
     let r := r * half
